@@ -109,6 +109,7 @@ type ERSView struct {
 	Canary        map[string]bool
 	FirstWriteSeq uint64
 	Settings      []*v1.ExtendedDaemonsetSetting // as listed by the sync, in list order
+	PodListFailed bool                           // a pod listing before the first write returned an error
 }
 
 func roleOf(eds *v1.ExtendedDaemonSet, rsName string) string {
@@ -135,6 +136,11 @@ func ersView(inv *simapi.Invocation) *ERSView {
 			continue
 		}
 		if c.Err != nil {
+			// (the canary-label clean-up list is not part of the view; calls of a stopped process are void)
+			if c.Verb == "list" && c.Kind == simapi.KindPod && v.FirstWriteSeq == 0 && c.Outcome != simapi.OutVoid &&
+				!strings.Contains(c.Selector, v1.ExtendedDaemonSetReplicaSetCanaryLabelKey) {
+				v.PodListFailed = true
+			}
 			continue
 		}
 		switch {
@@ -300,6 +306,11 @@ func (m *Monitors) onERS(inv *simapi.Invocation, out kit.Outcome) {
 			}
 			if createdOn[node] == 2 {
 				m.viol("C01", "C01.create-once", attrs, inv, d)
+			}
+			if v.PodListFailed {
+				// "creates a pod for a node only if, in the cluster state it read, that node ... carries
+				// no pod": the pod listing of this sync failed, so nothing it read says the node is free
+				m.viol("C01", "C01.create-free", merge(attrs, "cause", "pod-listing-failed"), inv, d)
 			}
 			// C04: canary confinement
 			if upToDate && role != "active" && v.EDS.Status.ActiveReplicaSet != "" {
